@@ -108,7 +108,7 @@ func NewSolarFromJulianDay(julianDay float64) *Solar {
 	}
 	if hour > 23 {
 		hour -= 24
-		day += 1
+		return NewSolar(year, month, day, hour, minute, second).NextDay(1)
 	}
 
 	return NewSolar(year, month, day, hour, minute, second)
